@@ -11,6 +11,7 @@ import warnings
 import numpy as np
 
 from ..gen import objects as OBJ
+from ..oracles import snapshot as S
 from ..runner import Problem
 from . import c08
 
@@ -206,14 +207,52 @@ def shard_selection_orders(ctx):
         ctx.report(spec, problems)
 
 
-def shard_guaranteed_generated(ctx, max_examples):
-    """Guaranteed attributes on files generated by the spec writers (incl. minimal ones)."""
+def check_generated_case(spec, tmpdir):
+    """Guaranteed attributes on one file generated by a spec writer."""
     import importlib
-
-    from hypothesis import strategies as st2
 
     from iodata import load_many, load_one
     from iodata.api import FORMAT_MODULES
+
+    fmt = spec["fmt"]
+    mod = importlib.import_module(f"ivp.oracles.specwriters.{fmt}")
+    fmod = FORMAT_MODULES.get(mod.FORMAT)
+    if fmod is None:
+        return [], False, [f"generated:{fmt}:no_module"]
+    model = mod.build(spec)
+    if not mod.core(spec, model):
+        return [], False, [f"generated:{fmt}:noncore"]
+    path = os.path.join(tmpdir, mod.FILENAME)
+    with open(path, "w") as fh:
+        fh.write(mod.write(model))
+    kwargs = getattr(mod, "load_kwargs", lambda m: {})(model)
+    problems = []
+    try:
+        with warnings.catch_warnings(record=True):
+            warnings.simplefilter("always")
+            loaded = []
+            try:
+                loaded.append(("load_one", load_one(path, **kwargs)))
+            except Exception:  # noqa: BLE001 - refusals are C03's business
+                pass
+            if hasattr(fmod, "load_many"):
+                try:
+                    loaded += [("load_many", fr) for fr in list(load_many(path, **kwargs))[:2]]
+                except Exception:  # noqa: BLE001
+                    pass
+    finally:
+        os.remove(path)
+    for op, data in loaded:
+        for name in getattr(getattr(fmod, op), "guaranteed", []):
+            if getattr(data, name, None) is None:
+                problems.append(Problem(f"C17/guaranteed/{fmt}/{name}",
+                                        f"generated file: {fmt}.{op} guarantees {name}, but it is None"))
+    return problems, bool(loaded), [f"generated:{fmt}"]
+
+
+def shard_guaranteed_generated(ctx, max_examples):
+    """Guaranteed attributes on files generated by the spec writers (incl. minimal ones)."""
+    import importlib
 
     from ..oracles.specwriters import selftest as WSELF
     from ..runner import drive
@@ -221,43 +260,8 @@ def shard_guaranteed_generated(ctx, max_examples):
     tmpdir = ctx.tmpdir
     for fmt in WSELF.available():
         mod = importlib.import_module(f"ivp.oracles.specwriters.{fmt}")
-        fmod = FORMAT_MODULES.get(mod.FORMAT)
-        if fmod is None:
-            continue
-
-        def body(spec, mod=mod, fmod=fmod, fmt=fmt):
-            model = mod.build(spec)
-            if not mod.core(spec, model):
-                return [], False, [f"generated:{fmt}:noncore"]
-            path = os.path.join(tmpdir, mod.FILENAME)
-            with open(path, "w") as fh:
-                fh.write(mod.write(model))
-            kwargs = getattr(mod, "load_kwargs", lambda m: {})(model)
-            problems = []
-            try:
-                with warnings.catch_warnings(record=True):
-                    warnings.simplefilter("always")
-                    loaded = []
-                    try:
-                        loaded.append(("load_one", load_one(path, **kwargs)))
-                    except Exception:
-                        pass
-                    if hasattr(fmod, "load_many"):
-                        try:
-                            loaded += [("load_many", fr) for fr in list(load_many(path, **kwargs))[:2]]
-                        except Exception:
-                            pass
-            finally:
-                os.remove(path)
-            for op, data in loaded:
-                for name in getattr(getattr(fmod, op), "guaranteed", []):
-                    if getattr(data, name, None) is None:
-                        problems.append(Problem(f"C17/guaranteed/{fmt}/{name}",
-                                                f"generated file: {fmt}.{op} guarantees {name}, but it is None"))
-            return problems, bool(loaded), [f"generated:{fmt}"]
-
-        drive(ctx, mod.st_model(False).map(lambda s, fmt=fmt: dict(s, fmt=fmt)), body, max_examples, name=f"gen_{fmt}")
-    del st2
+        drive(ctx, mod.st_model(False).map(lambda s, fmt=fmt: dict(s, fmt=fmt)),
+              lambda spec: check_generated_case(spec, tmpdir), max_examples, name=f"gen_{fmt}")
 
 
 def shard_public_selection(ctx):
@@ -305,6 +309,80 @@ def shard_public_selection(ctx):
                     problems.append(Problem("C17/public/rejects_supported", f"{op}({basename!r}, fmt={fmt!r}) -> FileFormatError"))
                 ctx.record(spec, want[0] == "error", ["public_select"])
                 ctx.report(spec, problems)
+
+
+def shard_explicit_wins(ctx):
+    """An explicitly given format wins over the file name, observed through what is written / read
+    (public functions and the converter function), for every pair of trajectory / geometry writers."""
+    from iodata import dump_many, dump_one, load_many, load_one
+
+    try:
+        from iodata.__main__ import convert
+    except Exception:  # noqa: BLE001
+        convert = None
+        ctx.skipped["convert_function_missing"] += 1
+    writers = ["xyz", "pdb", "mol2", "sdf"]
+    ext = {"xyz": "xyz", "pdb": "pdb", "mol2": "mol2", "sdf": "sdf"}
+    data = c08.base_object("xyz")
+    frames = [data, data]
+    tmp = ctx.tmpdir
+
+    def read(path):
+        with open(path, "rb") as fh:
+            return fh.read()
+
+    for fmt in writers:
+        ref_one = os.path.join(tmp, "ref_one.data")
+        ref_many = os.path.join(tmp, "ref_many.data")
+        dump_one(data, ref_one, fmt=fmt)
+        dump_many(frames, ref_many, fmt=fmt)
+        for other in writers + ["unknown"]:
+            if other == fmt:
+                continue
+            name = f"mol.{ext.get(other, 'unknownext')}"
+            for how in ("dump_one", "dump_many", "convert_one", "convert_many", "load_one", "load_many"):
+                spec = {"kind": "explicit_wins", "fmt": fmt, "name": name, "how": how}
+                path = os.path.join(tmp, name)
+                problems = []
+                try:
+                    if how == "dump_one":
+                        dump_one(data, path, fmt=fmt)
+                        same = read(path) == read(ref_one)
+                    elif how == "dump_many":
+                        dump_many(frames, path, fmt=fmt)
+                        same = read(path) == read(ref_many)
+                    elif how in ("convert_one", "convert_many"):
+                        if convert is None:
+                            continue
+                        many = how == "convert_many"
+                        convert(ref_many if many else ref_one, path, many, fmt, fmt, False)
+                        # reference: the same conversion to a neutral name
+                        neutral = os.path.join(tmp, "neutral.data")
+                        convert(ref_many if many else ref_one, neutral, many, fmt, fmt, False)
+                        same = read(path) == read(neutral)
+                        os.remove(neutral)
+                    else:
+                        # content of format ``fmt`` under a name that suggests ``other``
+                        with open(path, "wb") as fh:
+                            fh.write(read(ref_many if how == "load_many" else ref_one))
+                        if how == "load_one":
+                            got = S.snap(load_one(path, fmt=fmt))
+                            want = S.snap(load_one(ref_one, fmt=fmt))
+                        else:
+                            got = S.snap(list(load_many(path, fmt=fmt)))
+                            want = S.snap(list(load_many(ref_many, fmt=fmt)))
+                        same = got == want
+                    if not same:
+                        problems.append(Problem(f"C17/explicit_wins/{how}", f"{how} with fmt={fmt!r} on {name!r}: the explicit format did not decide"))
+                except Exception as exc:  # noqa: BLE001
+                    problems.append(Problem(f"C17/explicit_wins/{how}/raises", f"{how} with fmt={fmt!r} on {name!r}: {exc!r}"))
+                finally:
+                    if os.path.exists(path):
+                        os.remove(path)
+                ctx.record(spec, True, ["explicit_wins"])
+                ctx.report(spec, problems)
+        os.remove(ref_one)
+        os.remove(ref_many)
 
 
 def shard_declared_names(ctx):
@@ -427,7 +505,8 @@ def shards(tier, seed):
     big = tier == "thorough"
     out = [("declared_names", "shard_declared_names", {}), ("required_enforced", "shard_required_enforced", {}),
            ("public_selection", "shard_public_selection", {}), ("selection_orders", "shard_selection_orders", {}),
-           ("guaranteed_generated", "shard_guaranteed_generated", {"max_examples": 100 if big else 12})]
+           ("explicit_wins", "shard_explicit_wins", {}),
+           ("guaranteed_generated", "shard_guaranteed_generated", {"max_examples": 200 if big else 60})]
     for part in range(6):
         out.append((f"selection{part}", "shard_selection", {"part": part, "nparts": 6}))
     for part in range(6):
@@ -455,6 +534,8 @@ def replay(entry):
             shard_selection(ctx, 0, 1)
         elif kind == "public_select":
             shard_public_selection(ctx)
+        elif kind == "explicit_wins":
+            shard_explicit_wins(ctx)
         elif kind == "declared":
             shard_declared_names(ctx)
         elif kind == "guaranteed":
@@ -464,7 +545,8 @@ def replay(entry):
         elif kind in ("select_order", "select_family"):
             shard_selection_orders(ctx)
         elif "fmt" in spec:
-            shard_guaranteed_generated(ctx, 30)
+            want = entry.get("bucket")
+            return [p for p in check_generated_case(spec, ctx.tmpdir)[0] if want is None or p["bucket"] == want]
         want = entry.get("bucket")
         return [Problem(b, f["message"]) for b, f in ctx.failures.items() if want is None or b == want]
     finally:
